@@ -88,4 +88,7 @@ def main (args : List String) : IO UInt32 := do
   | ["caseu"] => Vsgm.Base.Case.Cli.caseuMain stdin stdout; stdout.flush; return 0
   | ["wb"] => Vsgm.WB.wbMain stdin stdout; return 0
   | ["setindent"] => Vsgm.Indent.Cli.setindentMain stdin stdout; return 0
+  -- >>> WP1 layer P
+  | ["prog"] => Vsgm.Prog.progMain stdin stdout; stdout.flush; return 0
+  -- <<< WP1 layer P
   | _ => IO.eprintln "usage: driver <mode>"; return 2
